@@ -52,3 +52,19 @@ Theorem C08_no_other_finalization :
     server_login_finish CS st m = Err EInvalidLogin.
 Proof. exact @server_finish_reject. Qed.
 Print Assumptions C08_no_other_finalization.
+
+
+(* ---------------------------------------------------------------- at the 20 concrete suites
+   The theorems above that assume GroupLaws, restated for each of the 20 suites with CurveLaws as the only hypothesis
+   (HashLaws, CodecLaws, SizeLaws and the encoding half of GroupLaws are proved for them: Theory/GroupSplit.v). *)
+From OKE Require Import CodecsConcrete GroupSplit Concrete20.
+
+Definition C08_same_length_and_structure_statement {E Sc Pk Sk} (CS : Suite E Sc Pk Sk) : Prop :=
+  forall tape (setup : ServerSetup Pk Sk Sk) file rq cred ctx ids st resp rest dbg,
+    server_login_start CS (private_key_ops (ke CS)) tape setup file rq cred ctx ids = Ok (st, resp, rest, dbg) ->
+    ve CS (cq_blinded rq) -> vk CS (kp_sk (ss_keypair setup)) ->
+    (forall f, file = Some f -> envelope_has_length CS (ru_envelope f)) ->
+    length (credential_response_serialize CS resp) = credential_response_len CS.
+Theorem C08_same_length_and_structure_at_each_of_the_20_suites : all_suites (fun _ _ _ _ CS => CurveLaws CS -> C08_same_length_and_structure_statement CS).
+Proof. apply at_the_20_suites. exact C08_same_length_and_structure. Qed.
+Print Assumptions C08_same_length_and_structure_at_each_of_the_20_suites.
